@@ -280,6 +280,21 @@ def scn_case(ctx):
         ctx.probes["other_files_left_after_failure"] += 1
 
 
+def _other_fs_tmpdir():
+    """A fresh directory on a file system other than the one the runs' directories live on
+    (None if the machine has none that is writable)."""
+    import tempfile
+
+    try:
+        here = os.stat(tempfile.gettempdir()).st_dev
+        for cand in ("/dev/shm", "/run/user/%d" % os.getuid(), "/var/tmp"):
+            if os.path.isdir(cand) and os.access(cand, os.W_OK) and os.stat(cand).st_dev != here:
+                return tempfile.mkdtemp(prefix="c17tmp-", dir=cand)
+    except OSError:
+        pass
+    return None
+
+
 def _ioerr_case(ctx, cfg, desc, clock, ref, torn=False):
     """The disk refuses (ENOSPC) the j-th file the run opens for writing — a failure raised by
     the stage's own store.  Afterwards the output file must still be a completed prefix
@@ -292,8 +307,20 @@ def _ioerr_case(ctx, cfg, desc, clock, ref, torn=False):
         j = 1 + ch.draw(max(1, 5 * K), "torn_write_call")
         mode = ("raise", "die")[ch.draw(4, "torn_mode") == 3]
         tear = ch.draw(3, "tear_point")  # 0: half; 1: before the last non-blank 80-byte record; 2: at a 512-byte sector boundary
-        fr = crashsim.fault_run(cfg, desc["rng_seed"], clock, _src(),
-                                {"kind": "torn", "write_call": j, "mode": mode, "tear": tear, "sector": ch.draw(64, "tear_sector"), "step": None}, outname=ref["outname"], compute_kw=ref["compute_kw"])
+        sector = ch.draw(64, "tear_sector")
+        # one case in two: the user's $TMPDIR lies on another file system than the output
+        # directory (anything staged there reaches the output by a copy, not by a rename)
+        other = _other_fs_tmpdir() if ch.draw(2, "tmpdir_on_another_file_system") else None
+        if other:
+            ctx.probes["tmpdir_on_another_file_system"] += 1
+        try:
+            fr = crashsim.fault_run(cfg, desc["rng_seed"], clock, _src(),
+                                    {"kind": "torn", "write_call": j, "mode": mode, "tear": tear, "sector": sector, "step": None, "tmpdir": other}, outname=ref["outname"], compute_kw=ref["compute_kw"])
+        finally:
+            if other:
+                import shutil
+
+                shutil.rmtree(other, ignore_errors=True)
     else:
         j = 1 + ch.draw(max(1, K), "io_write_no")
         mode = "raise"
@@ -561,7 +588,7 @@ def _config_task_body(args):
         for j in range(K):  # the disk refuses the j-th write: exhaustive over staged writes
             cases.append([6, j])
         for i in range(8 if tier == "quick" else 24):  # torn write (half the bytes, then EIO or death) at a seeded write call
-            cases.append([8, rnd.draw(5 * max(1, K), "torn_call"), rnd.draw(4, "torn_mode"), rnd.draw(3, "tear"), rnd.draw(64, "sector")])
+            cases.append([8, rnd.draw(5 * max(1, K), "torn_call"), rnd.draw(4, "torn_mode"), rnd.draw(3, "tear"), rnd.draw(64, "sector"), i % 2])
         for i in range(3 if tier == "quick" else 6):  # failed run, then a retry in the same process
             cases.append([7, rnd.draw(10**6, "retry_step"), i % 3, rnd.draw(64, "kill_k"), rnd.draw(14000, "kill_line")])
         for i in range(4 if tier == "quick" else 8):  # concurrent staged runs, seeded interleavings
